@@ -103,6 +103,17 @@ class Scope(FortranObj):
             pub_children.append(child)
         return pub_children
 
+    def child_line(self, child) -> int:
+        """0-based line at which a child is reported in the file of this
+        scope: an entity brought in by INCLUDE stands in another file, it is
+        reported at the INCLUDE statement"""
+        if child.file_ast is self.file_ast:
+            return child.sline - 1
+        for inc in self.file_ast.include_statements:
+            if any(child is obj for obj in inc.scope_objs):
+                return inc.line_number - 1
+        return self.sline - 1
+
     def check_definitions(self, obj_tree) -> list[Diagnostic]:
         """Check for definition errors in scope"""
         fqsn_dict: dict[str, int] = {}
@@ -115,10 +126,10 @@ class Scope(FortranObj):
                 continue
             # Check other variables in current scope
             if child.FQSN in fqsn_dict:
-                if child.sline < fqsn_dict[child.FQSN]:
-                    fqsn_dict[child.FQSN] = child.sline - 1
+                if self.child_line(child) + 1 < fqsn_dict[child.FQSN]:
+                    fqsn_dict[child.FQSN] = self.child_line(child)
             else:
-                fqsn_dict[child.FQSN] = child.sline - 1
+                fqsn_dict[child.FQSN] = self.child_line(child)
 
         contains_line = -1
         if self.get_type() in (
@@ -140,7 +151,7 @@ class Scope(FortranObj):
         for child in self.children:
             if child.name.startswith("#"):
                 continue
-            line_number = child.sline - 1
+            line_number = self.child_line(child)
             # Check for type definition in scope
             def_error, known_types = child.check_definition(
                 obj_tree, known_types=known_types, interface=is_interface
